@@ -152,6 +152,21 @@ def run(tier, seed):
                         jobs.append({"start": p, "calls": [(c, list(seq))], "n": 256})
                         if any(pad for pad, _ in models.fit_layout(p, seq, c)[0]):
                             nontriv += 1
+        if tier == "thorough":
+            # deeper: every ordered pair over ALL harvested lengths at every (c, p), and 4-instruction sequences over the
+            # 7-length alphabet for the small chunk sizes
+            for c in range(2, 41):
+                for p in range(c):
+                    for seq in itertools.product(lens, repeat=2):
+                        jobs.append({"start": p, "calls": [(c, list(seq))], "n": 256})
+                        if any(pad for pad, _ in models.fit_layout(p, seq, c)[0]):
+                            nontriv += 1
+            for c in (2, 3, 4, 5, 8, 16):
+                for p in range(c):
+                    for seq in itertools.product(alpha, repeat=4):
+                        jobs.append({"start": p, "calls": [(c, list(seq))], "n": 256})
+                        if any(pad for pad, _ in models.fit_layout(p, seq, c)[0]):
+                            nontriv += 1
         verify(rep, jobs, L, "sequence", variant)
         rep.bounds["sequences"] = len(jobs)
         rep.states += len(jobs)
